@@ -36,6 +36,8 @@ def linear(v, flags, problems, sign=1, filled=False):
         return out
     if k == "phi":
         c = v[1]
+        if c[0] == "const":
+            return linear(v[2] if c[1] else v[3], flags, problems, sign, filled)
         if c not in flags:
             raise AnalysisError(f"undecided condition in aggregate provenance: {ir.show(c, maxdepth=3)}")
         return linear(v[2] if flags[c] else v[3], flags, problems, sign, filled)
@@ -209,3 +211,89 @@ def request_lists(order, tier):
             else:
                 out.append(list(comb) + ["unit"])
     return out
+
+
+def _strip_shape(t):
+    while (t[0] == "call" and t[1][0] == "attr" and t[1][2] in ("flatten", "reshape", "copy")) or (t[0] == "attr" and t[2] == "values"):
+        t = t[1][1] if t[0] == "call" else t[1]
+    return t
+
+
+def matsum_components(term):
+    """term = a + b + c with each addend  ind[rows].T @ v  ->  list of (segment, value description, concat order ok)
+    Column reads may be raw IR (frame['c'] / frame.c) or Frames values ('col', frame, name)."""
+    term = _strip_shape(term)
+    parts = []
+
+    def flat(t):
+        if t[0] == "bin" and t[1] == "+":
+            flat(t[2]); flat(t[3])  # noqa: E702
+        else:
+            parts.append(t)
+
+    flat(term)
+    ind = Indicator({})
+    out = []
+    for t in parts:
+        if not (t[0] == "bin" and t[1] == "@" and t[2][0] == "attr" and t[2][2] == "T"):
+            out.append(("?", f"not an indicator product: {ir.show(t, maxdepth=3)}", False))
+            continue
+        try:
+            root, (lo, hi) = ind.rows(t[2][1])
+        except AnalysisError as e:
+            out.append(("?", str(e), False))
+            continue
+        seg = Indicator.segment(lo, hi) or "rows[" + "+".join(f"n{k}" for k in sorted(lo)) + ":" + "+".join(f"n{k}" for k in sorted(hi)) + "]"
+        order = None
+        for x in ir.walk(root):
+            o = concat_order(x)
+            if o is not None:
+                order = o
+                break
+        v = _strip_shape(t[3])
+        refs = []
+        for x in ir.walk(v):
+            if x[0] == "col" and x[2][0] == "const":
+                refs.append((x[1], x[2][1], x))
+            elif x[0] == "sub" and x[2][0] == "const" and isinstance(x[2][1], str) and (x[1] in FRAME_NAMES or x[1] == ("param", "self")):
+                refs.append((x[1], x[2][1], x))
+            elif x[0] == "attr" and x[1] in FRAME_NAMES and x[2] not in ("values", "shape", "T"):
+                refs.append((x[1], x[2], x))
+            elif x[0] == "attr" and x[1] == ("param", "self"):
+                refs.append((x[1], x[2], x))
+        frames = {r[0] for r in refs}
+        if frames == {("param", "self")} and len(refs) == 1:
+            desc = f"self.{refs[0][1]}"
+        elif len(frames) == 1 and FRAME_NAMES.get(next(iter(frames))) == seg:
+            desc = "*".join(sorted(r[1] for r in refs))
+        elif not refs:
+            desc = f"expression without column reads: {ir.show(v, maxdepth=3)}"
+        else:
+            desc = "rows of " + "/".join(sorted(FRAME_NAMES.get(fr, "self") for fr in frames)) + ": " + "*".join(sorted(r[1] for r in refs))
+        out.append((seg, desc, order == [R_, N_, U_]))
+    return out
+
+
+CLS_FLAG = ("cmp", "in", ("const", "county_classification"), ("param", "aggregate"))
+
+
+def empty_slice_of(t, frame):
+    """t == frame.iloc[:0] / frame[:0] / frame.head(0)"""
+    if t[0] == "sub" and t[2] == ("slice", ("const", None), ("const", 0), ("const", None)):
+        base = t[1]
+        if base[0] == "attr" and base[2] in ("iloc", "loc"):
+            base = base[1]
+        return base == frame
+    if t[0] == "call" and t[1] == ("attr", frame, "head") and t[2] == (("const", 0),):
+        return True
+    return False
+
+
+def non_classification_view(term):
+    """Rewrite  phi('county_classification' in aggregate ? <empty slice of U> : U)  to U: the view of a term on the
+    non-classification levels (where unexpected units take part)."""
+    m = {}
+    for x in ir.walk(term):
+        if x[0] == "phi" and x[1] == CLS_FLAG and x[3] == U_ and empty_slice_of(x[2], U_):
+            m[x] = U_
+    return ir.subst(term, m) if m else term
